@@ -19,3 +19,10 @@ T witness_c08(Seqs& seqs, std::ptrdiff_t rank, std::vector<It>& offsets) {
     std::ptrdiff_t off;
     return tlx::multisequence_selection<T>(seqs.begin(), seqs.end(), rank, off, std::less<T>());
 }
+
+// unsigned rank type and a non-default order (both are legal template arguments)
+T witness_c08_unsigned(Seqs& seqs, std::size_t rank, std::vector<It>& offsets) {
+    tlx::multisequence_partition(seqs.begin(), seqs.end(), rank, offsets.begin(), std::greater<T>());
+    std::size_t off;
+    return tlx::multisequence_selection<T>(seqs.begin(), seqs.end(), rank, off, std::greater<T>());
+}
